@@ -111,7 +111,7 @@ def reuse_case(core, util, rng, tier):
     k = 0
     try:
         for data, s, t in gen2:
-            ev2.append({"e": "T", "s": s, "t": t, "fr": [d[0] for d in data]})
+            ev2.append({"e": "T", "s": s, "t": t, "fr": [d[0] for d in data], "fv": [bool(d[1]) for d in data]})
             k += 1
             if how == "late_close" and gen1 is not None and k == close_at:
                 gen1.close()        # the abandoned generator is disposed of while the same tokenizer is in the middle of a later stream
